@@ -504,6 +504,16 @@ func (p *probeRun) checkAll(step string) {
 	o.Check("C05", "value-vs-plain-data")
 	o.Check("C16", "path-roundtrip")
 	paths := map[*ajson.Node]map[string]*ajson.Node{}
+	srcBefore := map[*ajson.Node][]byte{}
+	defer func() {
+		for rt, before := range srcBefore {
+			p.o.Check("C13", "marshal-is-a-read")
+			if !bytes.Equal(rt.Source(), before) {
+				p.fail("C13", "marshal-is-a-read", "Marshal of the clean inner nodes of a tree, then writing into / appending to the returned bytes, changed the source bytes of the tree", hexOrDash(before), hexOrDash(rt.Source()))
+				copy(rt.Source(), before) // keep the run going on the original text
+			}
+		}
+	}()
 	for _, n := range nodes {
 		// --- C06
 		size := n.Size()
@@ -649,20 +659,18 @@ func (p *probeRun) checkAll(step string) {
 			}
 		}
 		// --- C13: Marshal is a read, also of a clean inner node: what the reader then does with the bytes it was given (append a
-		// separator, reuse them as a buffer) is no edit of the tree
+		// separator, reuse them as a buffer) is no edit of the tree. The source of every clean root is kept once per step and
+		// compared after all nodes were marshalled (below the loop).
 		if !n.IsDirty() && n.Parent() != nil {
 			rt := rootOf(n)
 			if !rt.IsDirty() {
-				before := append([]byte(nil), rt.Source()...)
+				if _, seen := srcBefore[rt]; !seen {
+					srcBefore[rt] = append([]byte(nil), rt.Source()...)
+				}
 				if out, merr := ajson.Marshal(n); merr == nil {
-					p.o.Check("C13", "marshal-is-a-read")
 					out = append(out, ',', ' ')
 					for i := range out {
 						out[i] = '#'
-					}
-					if !bytes.Equal(rt.Source(), before) {
-						p.fail("C13", "marshal-is-a-read", "Marshal("+n.Path()+"), then writing into / appending to the returned bytes, changed the source bytes of the queried tree", hexOrDash(before), hexOrDash(rt.Source()))
-						copy(rt.Source(), before) // keep the run going on the original text
 					}
 				}
 			}
